@@ -7,7 +7,7 @@
 From Coq Require Import ZArith List Bool Lia ZifyBool.
 From RecordUpdate Require Import RecordSet.
 From Common Require Import Res.
-From Core Require Import World Hoare Model Step Reach Proofs_C03b Proofs_C02b Proofs_C10b Proofs_C02c.
+From Core Require Import World Hoare Model Step Reach Proofs_C03b Proofs_C03f Proofs_C02b Proofs_C10b Proofs_C02c.
 Import ListNotations RecordSetNotations.
 Open Scope Z_scope.
 
@@ -38,7 +38,7 @@ Definition ops_of (st : ps) (c : cmd) : list op :=
   | CPause => [Pause; D; D]
   | CResume => [Resume; D; D; D]
   | CNext _ => match st with Paused => [Next; D; D; D] | _ => [Next; D; D; D; D] end
-  | CPrevious _ => [Previous; D; D; D; D]
+  | CPrevious _ => match st with Paused => [Previous; D; D; D] | _ => [Previous; D; D; D; D] end
   | CPlay i _ => [Play (Some i); D; D; D; D]
   | CSeek p => [Seek p; D]
   end.
@@ -53,7 +53,7 @@ Definition ok (w : world) (c : tlt) (k : cmd) : Prop :=
   | CPause => pstate w = Playing
   | CResume => pstate w = Paused
   | CNext x => next_track shuf (Some c) w = (Ok (Some x), w) /\ In x (World.tl w)
-  | CPrevious x => pstate w = Playing /\ previous_track (Some c) w = (Ok (Some x), w) /\ In x (World.tl w)
+  | CPrevious x => previous_track (Some c) w = (Ok (Some x), w) /\ In x (World.tl w)
   | CPlay i x => 1 <= i /\ find (fun y => tlid y =? i) (World.tl w) = Some x
   | CSeek p => exists len, len_of w (trk c) = Some len /\ 0 <= p <= len
   end.
@@ -118,9 +118,12 @@ Proof.
     + destruct (next_prediction_paused_full shuf f x c w Hs Hst Hco Hacc Hn) as (A & B & _ & C & _).
       apply (running_next w c x _ Paused R Hin A B C). right; reflexivity.
   - (* previous *)
-    destruct Hok as (Hst & Hn & Hin). pose proof (running_accepts w c x R Hin) as Hacc.
-    destruct (previous_prediction_playing_full shuf f x c w Hs Hst Hco Hacc Hn) as (A & B & _ & C & _).
-    apply (running_next w c x _ Playing R Hin A B C). left; reflexivity.
+    destruct Hok as (Hn & Hin). pose proof (running_accepts w c x R Hin) as Hacc.
+    destruct (rn_state w c R) as [Hst|Hst]; rewrite Hst.
+    + destruct (previous_prediction_playing_full shuf f x c w Hs Hst Hco Hacc Hn) as (A & B & _ & C & _).
+      apply (running_next w c x _ Playing R Hin A B C). left; reflexivity.
+    + destruct (previous_prediction_paused_full shuf f x c w Hs Hst Hco Hacc Hn) as (A & B & _ & C & _).
+      apply (running_next w c x _ Paused R Hin A B C). right; reflexivity.
   - (* play(tlid) *)
     destruct Hok as [Hi Hf]. assert (Hin : In x (World.tl w)) by (apply find_some in Hf; tauto).
     pose proof (running_accepts w c x R Hin) as Hacc.
